@@ -477,11 +477,11 @@ def evaluate__ceiling_and_floor_functions(self: XPathFunction, context: ta.Conte
         arg = self.number_value(arg)
 
     try:
-        if math.isnan(arg) or math.isinf(arg):
-            assert isinstance(arg, (int, float, decimal.Decimal))
+        if not isinstance(arg, (int, float, decimal.Decimal)):
+            raise TypeError(f"invalid argument type {type(arg)!r}")
+        elif math.isnan(arg) or math.isinf(arg):
             return arg
 
-        assert isinstance(arg, (int, float, decimal.Decimal))
         if self.symbol == 'floor':
             return type(arg)(math.floor(arg))
         else:
@@ -509,8 +509,12 @@ def evaluate__round(self: XPathFunction, context: ta.ContextType = None) -> ta.O
         return arg
 
     try:
+        if not isinstance(arg, (int, float, decimal.Decimal)):
+            if isinstance(arg, str):
+                raise decimal.InvalidOperation()
+            raise TypeError(f"invalid argument type {type(arg)!r}")
+
         number = decimal.Decimal(arg)
-        assert isinstance(arg, (int, float, decimal.Decimal))
         if number > 0:
             return type(arg)(number.quantize(decimal.Decimal('1'), rounding='ROUND_HALF_UP'))
         else:
